@@ -971,23 +971,23 @@ def codec_cases(rng, n):
 
 def gen_cases(seed, tier):
     rng = random.Random(seed * 1000003 + 7)
-    n_stream = {'quick': 2600, 'thorough': 40000, 'search': 40000}[tier]
-    n_codec = {'quick': 1400, 'thorough': 20000, 'search': 20000}[tier]
+    n_stream = {'quick': 2600, 'thorough': 20000, 'search': 30000}[tier]
+    n_codec = {'quick': 1400, 'thorough': 10000, 'search': 5000}[tier]
     cases = [stream_case(rng) for _ in range(n_stream)]
     cases.extend(codec_cases(rng, n_codec))
     # exhaustive segmentations of short streams
-    limit = 9 if tier == 'quick' else 14
+    limit = 9 if tier == 'quick' else 12
     for s in SHORT_STREAMS:
         if len(s) > limit:
             s = s[:limit]
         for chunks in all_segmentations(s):
             cases.append({'kind': 'stream', 'chunks': [hx(c) for c in chunks], 'others': []})
     if tier != 'quick':
-        for _ in range(300):
-            s = rand_stream(rng)[:12]
+        for _ in range(30):
+            s = rand_stream(rng)[:11]
             for chunks in all_segmentations(s):
                 cases.append({'kind': 'stream', 'chunks': [hx(c) for c in chunks], 'others': []})
-        for n in (5000, 100000):
+        for n in (5000, 30000):
             cases.append({'kind': 'stream', 'others': [],
                           'chunks': [hx(b'ping x "' + b'y' * n + b'"\nping\n'), hx(b'read m:value ' + b'[' * n + b'\n')]})
     return cases
